@@ -70,6 +70,12 @@ ON_DEMAND = "engine.Engine._recompute"
 CUTS = {GUARDED: "evaluation bracketed by checkpoint / undo (R2)",
         ON_DEMAND: "on-demand recalculation, inert at rest (R3)"}
 
+# The second cut is the *edge* from a read to the recalculation machinery: it is the same edge when
+# the body of _recompute is written in place in _use_node.
+USE_NODE = "engine.Engine._use_node"
+ON_DEMAND_MACHINERY = ("engine.Engine._update_loop", "engine.Engine._recompute_step",
+                       "engine.Engine._flush_changes")
+
 # Code run by attribute access (no Call node), per entry point that relies on it.
 PROPERTY_SEEDS = {
   "autocomplete": [
@@ -173,6 +179,8 @@ def forward(cg, repo, seeds, cut):
     if fi is None:
       continue
     for q in sorted(cg.callees(fi)):
+      if x == USE_NODE and q in ON_DEMAND_MACHINERY:
+        continue        # the on-demand recalculation written in place: the same cut edge (R3)
       if q not in seen:
         seen[q] = x
         work.append(q)
@@ -191,6 +199,9 @@ def r1_effects(run, w, cg):
                 "or dirtying effect outside the guarded evaluation and the on-demand recalculation "
                 "edge", floor=7)
   repo = w.repo
+  for c_ in CUTS:
+    need(c_ in repo.funcs, "the cut %s (%s) vanished: without it the effect analysis would run "
+         "into the evaluation machinery" % (c_, CUTS[c_]))
   runf = w.fn("main.run")
   eff_cache = {}
   n_funcs = set()
@@ -667,8 +678,10 @@ def r5_queued_effects(run, w, cg):
           F.qualname in EVALUATION_CUT:
         continue
       reach = forward(cg, repo, [F.qualname], set(EVALUATION_CUT))
-      emits = any(k == "doc-action" for q in reach if q in repo.funcs
-                  for (k, x) in effect_sites(w, repo.funcs[q]))
+      ua_methods = {f.qualname for f in w.useraction_methods().values()}
+      emits = any(q in ua_methods for q in reach) or \
+          any(k == "doc-action" for q in reach if q in repo.funcs
+              for (k, x) in effect_sites(w, repo.funcs[q]))
       if not emits:
         continue
       for x in ast.walk(F.node):
